@@ -237,6 +237,21 @@ def xml_parser_options(prog, rep, rule, names, module="odml.tools.xmlparser"):
                               "%s builds the parser with %s=%s, which %s" % (f0.short, name, unparse(bad[0].value) if bad else "", why), where(f0, c),
                               witness=wit)
     rep.floor(rule, n, 1, "XMLParser constructions in %s" % module[5:])
+    # ... and that parser is the one every document is read with: each lxml parse call of the module hands a parser on
+    n_p = 0
+    for f0 in prog.all_functions():
+        if f0.module.name != module:
+            continue
+        for c in calls_in(f0.node):
+            fn = call_name(c).split(".")[-1]
+            if fn in ("parse", "XML", "fromstring") and isinstance(c.func, ast.Attribute) and unparse(c.func.value) in ("ET", "etree", "lxml.etree") and c.args:
+                n_p += 1
+                given = len(c.args) >= 2 or any(k.arg == "parser" for k in c.keywords)
+                rep.check(given, rule, "%s: %s reads with the configured parser" % (f0.short, call_name(c)), "parser handed on",
+                          "%s calls %s without the parser that was configured (%s): this entry point accepts other inputs than its siblings" %
+                          (f0.short, unparse(c)[:60], ", ".join(names)), where(f0, c),
+                          witness="an XML file with a comment loads through from_string but not through from_file")
+    rep.floor(rule, n_p, 2, "lxml parse calls in %s" % module[5:])
 
 
 def run(prog, rep):
@@ -377,6 +392,50 @@ def run(prog, rep):
     present_key_rule(prog, rep, "KEY-2")
     keep_children_rule(prog, rep, "KEEP-1")
     path_only_on_str_rule(prog, rep, an, "KIND-1")
+
+    # ---------------------------------------------------------------- REC-1
+    rep.rule("REC-1", "XMLReader.warn / DictReader.warn: every path to a normal exit appends the message to self.warnings (show_warnings only "
+                      "decides about stderr); in warn / error of both readers the left operand of every `%` is a string literal - a message that "
+                      "quotes user data or a foreign exception text is never itself used as a format string")
+    from ..logic import must_cross as _mc
+    for qn in ("tools.xmlparser.XMLReader", "tools.dict_parser.DictReader"):
+        cls0 = prog.cls(qn.split(".")[-1])
+        w = cls0.methods.get("warn")
+        if w is None:
+            raise AnalysisError("%s.warn vanished" % qn)
+        rep.saw_function(w)
+        g = build_cfg(w)
+        me = w.params[0]
+        recs = [n for n in g.nodes if any(unparse(c.func) == "%s.warnings.append" % me for r in n.expr_roots() for c in calls_in(r))]
+        rep.floor("REC-1", len(recs), 1, "self.warnings.append in %s.warn" % qn)
+        rec_ids = set(n.id for n in recs)
+        # a normal exit reachable without passing a recording node?
+        seen, stack, leak = set(), [g.entry], False
+        while stack:
+            n = stack.pop()
+            if n.id in seen or n.id in rec_ids:
+                continue
+            seen.add(n.id)
+            if n is g.exit:
+                leak = True
+                break
+            for k, m in n.succ:
+                if k not in ("exc", "except", "raise"):
+                    stack.append(m)
+        rep.check(not leak, "REC-1", "%s.warn records on every path" % cls0.name, "ok",
+                  "%s.warn can return without appending to self.warnings: a problem of a leniently read file leaves no record" % cls0.name, w.where,
+                  witness="lenient reader with show_warnings=False: the document is returned, reader.warnings stays empty")
+        for fname in ("warn", "error"):
+            f5 = cls0.methods.get(fname)
+            if f5 is None:
+                continue
+            for n5 in walk_no_nested(f5.node):
+                if isinstance(n5, ast.BinOp) and isinstance(n5.op, ast.Mod):
+                    lit = isinstance(n5.left, ast.Constant) and isinstance(n5.left.value, str)
+                    rep.check(lit, "REC-1", "%s.%s: `%s %% ...`" % (cls0.name, fname, unparse(n5.left)[:30]), "literal format",
+                              "%s.%s formats with `%s` as the format string: a %% in the quoted data raises TypeError / ValueError instead of "
+                              "the ParserException" % (cls0.name, fname, unparse(n5.left)[:60]), where(f5, n5),
+                              witness="strict reader, unit=\"50%\": ValueError: unsupported format character")
 
     # --------------------------------------------------------------- REGEX-1
     regex_rule(prog, rep, "REGEX-1")
